@@ -280,6 +280,16 @@ _UPDATES = [
      "- out of place and with every same-pointer pattern (res==a, res==b, res==a==b, a==b, in-place normalisation and inverse DFTs) - is executed with every const operand snapshotted including stride padding;"),
     ("C18", "text", "after the call each must be bit-identical,",
      "after the call each must be bit-identical (for a source that shares its buffer with the output: the bytes outside the output's extent),"),
+    ("C03", "text", "for all size/stride combinations of the box.", "for all size/stride combinations of the box (strides N, N+1, N+3 and, for the read-only source, also N-1, N/2 and 0)."),
+    ("C05", "text", "the single-limb primitive is enumerated in its six argument shapes.", "the single-limb primitive is enumerated in its six argument shapes; three data sets (62-bit probes, digit-boundary values, structured limbs: all zero / multiples of 2^32) and a thinned layer at N = 4096 and 16384."),
+    ("C08", "text", "the element functions are enumerated on the value-alphabet square separately.", "the element functions are enumerated on the value-alphabet square separately. Besides the injective probes the data contains structured rows (all zero, multiples of 2^32, zero except one coefficient); every case also runs with the output aliased to the first input (same stride, or a one-limb view with another stride)."),
+    ("C10", "text", "conversions (int64->b, int64->c, b->c, b+b, c+c, b->int128 centred lift) are checked on boundary alphabets", "conversions (int64->b, int64->c, b->c, b+b, c+c on canonical operands and on all pairs of a lazy 32-bit lane alphabet, b->int128 centred lift) are checked on boundary alphabets"),
+    ("C11", "text", "and the object must behave bit-identically;", "and the object must behave bit-identically; every ordered pair of calls of one *_simple function (other dimension, divisor or bound) runs with exact-size buffers and the second result must be what freshly built tables return;"),
+    ("C12", "text", "shared FFT64/NTT120 modules of four dimensions,", "shared FFT64/NTT120 modules of four dimensions (each with four buffer-alignment patterns and with its pure sources mapped read-only),"),
+    ("C14", "text", "through the constructor API and the *_simple forms.", "through the constructor API and the *_simple forms (consecutive *_simple calls differ in the announced bound only)."),
+    ("C17", "text", "contiguous with 0..4 rows, three strides;", "contiguous and strided with up to 17 rows, strides of every residue modulo 4 doubles;"),
+    ("C18", "text", "is executed with every const operand snapshotted including stride padding;", "is executed - under four buffer-alignment patterns and with every pure source in its own read-only mapping, so that even a write that is undone afterwards faults - with every const operand snapshotted including stride padding;"),
+    ("C18", "note", "snapshots compare the state after the call (a write that restores the old value is C12's concern, caught there by write traps).", "snapshots compare the state after the call; transient writes are caught by the read-only mappings for caller-owned sources and by C12's write traps for module / table memory."),
 ]
 for _cid, _field, _old, _new in _UPDATES:
     if _old not in CHECKS[_cid][_field]:
